@@ -1,6 +1,6 @@
 SPECIFICATION Spec
 CONSTANTS
-  Families = {"all1", "all2", "bin3", "perm3", "perm4", "tri3", "tri4", "ptri3", "ptri4"}
+  Families = {"all1", "all2", "bin3", "perm3", "perm4", "tri3", "tri4", "ptri3", "ptri4", "diag3", "diag4", "spd3", "spd4", "trid3", "sym3", "perm5"}
   Pivoting = TRUE
   Mod = 1
   Res = 0
